@@ -433,6 +433,13 @@ pub fn scn_snapshots(o: &Opts, tr: &mut Tr, prop: &str) {
                 op += w;
                 if st == TINFLStatus::BlockBoundary {
                     count += 1;
+                    if s.zlib {
+                        // C16: the running checksum covers the output produced so far at a boundary stop too
+                        let want = crate::comp::adler_pair(&out[..op]);
+                        let got = d.adler32().map(crate::comp::adler_pair_of_u32);
+                        tr.ev(json!({"ev": "pair", "what": "decoder_adler_covers_the_output_at_a_block_boundary",
+                                     "a": got.map(crate::comp::pair_json), "b": crate::comp::pair_json(want)}));
+                    }
                     let bbs = d.block_boundary_state();
                     match bbs {
                         None => tr.ev(json!({"ev": "pair", "what": "block_boundary_state_available", "a": false, "b": true})),
